@@ -431,6 +431,7 @@ const (
 	actForge     = 8  // a forged datagram with cleartext cookie fields arrives before the genuine reply
 	actTrailRep  = 12 // extension fields appended behind the authenticator of the genuine reply: a cookie field with the request's own cookie, with a random cookie, or two of them
 	actTrailReq  = 13 // placeholder fields appended behind the authenticator of the request on its way to the server
+	actOverfill  = 14 // a foreign server: the reply is properly sealed under S2C and carries seven good cookies, whatever was asked for
 	actUnsync    = 11 // the reply says the server is not synchronised (or is otherwise not a usable NTP reply) but is properly authenticated under S2C and carries the fresh cookies
 	actKeOdd     = 10 // a key exchange, if one is needed, hands out 1..7 cookies, or eight of another length; otherwise as actDeliver
 	actKeBadSrv  = 9  // a key exchange, if one is needed, succeeds but names a server that is not an IP address; otherwise as actDeliver
@@ -450,6 +451,7 @@ type stepObs struct {
 	openable   bool
 	curKey     int64    // the provider's current key id right after the reply (-1: not asked)
 	forged     [][]byte // cookies of a forged datagram delivered to the client
+	foreign    bool     // the reply was made by a server that is not this project's
 	trailing   bool     // fields were appended behind an authenticator
 	late       bool     // the request was found in the relay's queue only after the call had returned
 	strayReqs  int      // further datagrams of the client after its request
@@ -501,6 +503,33 @@ func (e *env) replyFacts(r, s2c []byte) (authOK bool, nonce, ctRecomputed, plain
 		q += l
 	}
 	return
+}
+
+// overfull builds an authenticated reply with seven cookies for the request that reply r answers.
+func (e *env) overfull(r []byte, d ntske.Data) (out []byte) {
+	defer func() {
+		if recover() != nil {
+			out = nil
+		}
+	}()
+	var p nts.Packet
+	if err := nts.DecodePacket(&p, r); err != nil {
+		return nil
+	}
+	sc := ntske.ServerCookie{Algo: ntske.AES_SIV_CMAC_256, S2C: d.S2cKey, C2S: d.C2sKey}
+	key := e.provider.Current()
+	var cookies [][]byte
+	for i := 0; i < 7; i++ {
+		ec, err := sc.EncryptWithNonce(key.Value, key.ID)
+		if err != nil {
+			return nil
+		}
+		cookies = append(cookies, ec.Encode())
+	}
+	pkt := nts.NewResponsePacket(cookies, d.S2cKey, p.UniqueID.ID)
+	buf := append([]byte(nil), r[:ntp.PacketLen]...)
+	nts.EncodePacket(&buf, &pkt)
+	return buf
 }
 
 // noteIssued records the cookies handed out in a call and returns those seen before in this run.
@@ -686,6 +715,18 @@ func (e *env) runStep(x *cl, st step, old *[][]byte) stepObs {
 		case actDeliver, actDropReply, actTamper, actReplay, actForge, actUnsync, actTrailRep:
 			o.forwarded = 1
 			forward()
+		case actOverfill:
+			o.forwarded = 1
+			forward()
+			if len(o.replies) > 0 {
+				// in place of the listener's reply: same NTP header and unique identifier, seven cookies made the
+				// way the servers make them (provider.Current(), this session's keys), NewResponsePacket + EncodePacket
+				if f := e.overfull(o.replies[0], d); f != nil {
+					o.replies[0], o.foreign = f, true
+					rawReplies[0] = x.forClient(f, rawReq)
+				}
+			}
+			act = actDeliver
 		case actDupReq:
 			o.forwarded = 2
 			forward()
@@ -915,7 +956,7 @@ func (o *stepObs) String() string {
 		lib.I(int64(o.forwarded)), lib.I(int64(len(o.replies))), rep, lib.B(o.repNonce), lib.B(o.repCT),
 		lib.Bool(o.repAuthOK), lib.B(o.repPlain), lib.L(o.repCookies...),
 		lib.Bool(o.intact), lib.Bool(o.clientErr), lib.I(o.keDelta),
-		bl(o.poolAfter), lib.B(o.c2s), lib.B(o.s2c), lib.I(o.curKey), bl(o.forged), lib.I(int64(o.noSend)), lib.L(o.extra...), bl(o.seenBefore), lib.I(int64(o.strayReqs)))
+		bl(o.poolAfter), lib.B(o.c2s), lib.B(o.s2c), lib.I(o.curKey), bl(o.forged), lib.I(int64(o.noSend)), lib.L(o.extra...), bl(o.seenBefore), lib.I(int64(o.strayReqs)), lib.Bool(o.foreign))
 }
 
 func parseScript(args string) []step {
@@ -975,6 +1016,9 @@ func (e *env) runHist(script []step, overSCION bool) (tagstr, args, outstr strin
 		}
 		if len(o.forged) > 0 {
 			tags["forged"] = true
+		}
+		if o.foreign {
+			tags["foreign-server-overfull"] = true
 		}
 		if o.trailing {
 			tags[fmt.Sprintf("trailing-act%d", st.action)] = true
@@ -1157,7 +1201,7 @@ func main() {
 		nconc = 60
 	}
 	for i := 0; i < nconc; i++ {
-		js = append(js, job{"c11.conc", lib.L(lib.I(800), lib.I(int64(lib.Pick(r, 4, 8, 12, 12))))})
+		js = append(js, job{"c11.conc", lib.L(lib.I(800), lib.I(int64(lib.Pick(r, 4, 6, 8, 8))))})
 	}
 	nck := 8
 	if a.Tier == "thorough" {
